@@ -1,4 +1,5 @@
 import CMacVerif.Model.Ranlux
+import CMacVerif.Model.RanluxSplit
 import CMacVerif.Util.Bits
 open CMacVerif CMacVerif.Util CMacVerif.Ranlux
 
@@ -37,6 +38,28 @@ def firstDiff : Nat → Nat → State → State → Int
     let (v, b') := next exact b
     if u ≠ v then (i : Int) else firstDiff n (i + 1) a' b'
 
+/-- the first `n` draws of a generator -/
+def drawsOf : Nat → State → List Int
+  | 0, _ => []
+  | n + 1, s => let (v, s') := next exact s; v :: drawsOf n s'
+
+/-- `split <N> <weight bits>:<copies> …`: the split of a freshly constructed photon source;
+the two float expressions are the C++ ones: `(size_t)(N * weight)`, `(size_t)(u * nsources)` -/
+def splitOp (ws : List String) : String :=
+  match ws with
+  | n :: rest =>
+    let N := nat! n
+    let src : List (Nat × Nat) := rest.map fun w =>
+      match w.splitOn ":" with
+      | [wb, c] => ((N.toFloat * fOfBits (nat! wb)).toUInt64.toNat, nat! c)
+      | _ => (0, 1)
+    let L := N - (src.map Prod.fst).sum
+    let us := (drawsOf L (seedState exact defaultSeed)).toArray
+    let idx := fun i => ((toF (us.getD i 0)) * src.length.toFloat).toUInt64.toNat
+    let r := split N src idx
+    "split " ++ " ".intercalate (r.map toString) ++ (if L = 0 then " #split-no-leftover" else " #split-leftover")
+  | _ => "bad-op"
+
 def step (s : State) : List String → State × String
   | ["seed", n] =>
     let s' := seedState exact (intOf n)
@@ -58,6 +81,7 @@ def step (s : State) : List String → State × String
       | some s' => (s', s!"state {showState s'}")
       | none => (s, "state-error")
     else (s, "bad-op")
+  | "split" :: rest => (s, splitOp rest)
   | ["dump"] => (s, s!"dump {showState s}")
   | ["restore"] =>
     match restore (dump s) with
